@@ -70,6 +70,8 @@ var originAtoms = func() []originAtom {
 	inv("", "http,https://example.com", "ht!tp://example.com", "h,ttp://localhost:8080", "https,://example.com", "+http://example.com", "http;x://example.com", "http~://example.com",
 		"https://exa,mple.com", "https://ex+ample.com", "https://example.com,", "https://a;b.example.com", "https://*.exa,mple.com", "https://example.c(m", "https://ex=ample.com", "https://example.com~",
 		"https://example.com:8_0", "https://example.com:1e3", "https://example.com:0x50", "https://example.com:8,0", "https://example.com:80a", "https://example.com: 80", "https://example.com:８０")
+	// IPv4 in other than dotted-quad notation, lower case ("http://0xFF000000 // prohibited")
+	inv("", "http://0xff000000", "http://0x7f000001:8080", "http://127.0.0.0x1", "http://0x7f.0x0.0x0.0x1", "http://127.0xa", "http://*.0x7f000001", "http://2130706433", "http://0177.0.0.1", "http://127.1")
 	inv("", strings.Repeat("s", 65)+"://example.com", "a"+strings.Repeat("+", 64)+"://localhost:8080")
 	inv("", "https://www.résumé.com", "https://Example.com", "HTTPS://example.com", "https://user@example.com", "https://user:pw@example.com",
 		"https://example.com/", "https://example.com/path", "https://example.com?q=1", "https://example.com#f", " https://example.com", "https://example.com ",
